@@ -148,6 +148,12 @@ pub fn run(tier: Tier) -> i32 {
         calls_l += c;
         run.merge_violations(vs);
     }
+    // ---------------------------------------------------------------- (d) through analyze_dir
+    let pool: Vec<crate::synth::Prog> = small.progs.into_iter().filter(|p| p.tag.starts_with("S.pool") || p.tag.contains("atom.")).collect();
+    let (dvs, dstates, dcalls) = crate::fsx::dir_layout_check(&pool, "C02");
+    run.merge_violations(dvs);
+    run.set("directory_level_layout_states", dstates);
+    calls_l += dcalls;
     // ---------------------------------------------------------------- (b) choice of location
     let (sw, _sum, _samples) = refdet::sweep_stream(tier, &crate::dets::all(), refdet::Mode::LocationOnly, &|_| true);
     for e in &sw.machinery {
